@@ -321,9 +321,10 @@ func (c *Ctx) travTables(fns map[string]*ssa.Function) {
 			r0t := fa.term(s, ret.Results[0])
 			r1 := c.travResult(fa, s, ret.Results[1])
 			want := fa.callResultTerm(s, conv, 0)
-			okV := (r0t.K == "P" && r0t.N == 1) || (r0t.K == "MI" && r0t.A == want)
+			_ = want
+			okV := r0t.K == "P" && r0t.N == 1
 			if !okV || r1.kind != "true" {
-				out = append(out, fmt.Sprintf("Condition at the end of the path: returns (%s, %s), expected (the Condition, true)", r0t.key, r1.desc))
+				out = append(out, fmt.Sprintf("Condition at the end of the path: returns (%s, %s), expected (the element as stored - what Index returns -, true)", r0t.key, r1.desc))
 			}
 			return out
 		}
